@@ -62,6 +62,9 @@ def nearest(ctx, fmt, x, y, base, tag):
 
 def run_case(cfg, ctx):
   from vf import qenv
+  if cfg.get("tensor_alpha"):
+    ctx.skip("tensor_alpha_configuration(C01 workload)")
+    return
   fmt = fixed.make(cfg)
   cls = cfg["cls"]
   base = {"cls": cls, "variant": c01.variant(cfg, fmt),
